@@ -783,10 +783,25 @@ func r164(c *an.Ctx) {
 			if !guardEq && eqv == !t.stopOn && !isOkC {
 				// after the loop: ok is the accumulated flag: a phi of false and comparer oks
 				acc := true
-				for _, v := range an.Sources(r.Results[1]) {
+				for _, lf := range an.PhiLeaves(r.Results[1]) {
+					v := lf.Val
 					if b, isB := an.ConstBool(v); isB {
 						if b {
-							acc = false // constant true: speaks although nobody did
+							// `ok = true` is fine where a comparer has just reported ok; otherwise it speaks although nobody did
+							spoke := false
+							for _, e := range lf.Conds {
+								neg := false
+								cond := e.If.Cond
+								if u, isNot := cond.(*ssa.UnOp); isNot && u.Op == token.NOT {
+									cond, neg = u.X, true
+								}
+								if an.IsExtractOf(cond, call, 1) && e.Branch != neg {
+									spoke = true
+								}
+							}
+							if !spoke {
+								acc = false
+							}
 						}
 						continue
 					}
@@ -842,10 +857,10 @@ func r165held(c *an.Ctx, rule string) {
 				continue
 			}
 			found = true
-			var sel *ssa.Select
+			var sel ssa.Instruction // the instruction that delivers the change (a select/send, or a call standing for one)
 			an.Instrs(f, func(in ssa.Instruction) {
-				if s, ok := in.(*ssa.Select); ok && loop.Dominates(s.Block()) {
-					sel = s
+				if an.IsSendSite(in) && loop.Dominates(in.Block()) {
+					sel = in
 				}
 			})
 			if sel == nil {
@@ -931,7 +946,7 @@ func r165held(c *an.Ctx, rule string) {
 					}
 					t, _ := an.PathQuery{
 						Target: func(x ssa.Instruction) bool { return x.Block() == loop },
-						Avoid:  func(x ssa.Instruction) bool { _, isSel := x.(*ssa.Select); return isSel },
+						Avoid:  an.IsSendSite,
 					}.From(f, in)
 					if t != nil {
 						why = "the per-id reference map is written at " + c.Prog.Rel(in.Pos()) + " on a path that reaches the next iteration without delivering the change"
